@@ -1,8 +1,98 @@
 import SV.Driver.Util
-/- svdriver_c14: line protocol for the C14 model (stub until the model is built). -/
+import SV.Model.Sort
+/-
+svdriver_c14: line protocol for the C14 model (entry sorting of the eStargz builder).
+
+  sort <allow> P=<hex>,… E=<t>:<hexname>:<hexlink>:<size>;…
+        -> ok order=<id|L1|L0>,… missed=<hex>,…   |  err  |  diverge
+  build <allow> <chunkSize> <minChunkSize> <workers> P=… E=…
+        -> ok tar=<id|L1|L0>,… missed=<hex>,… toc=<id>@<chunkOffset>,…   |  err  |  diverge
+
+<allow> is 0/1 (WithAllowPrioritizeNotFound given or not).  Entry type <t>: r regular file,
+l hardlink, d directory, s symlink, o other.  Entry ids are the 1-based positions in E;
+L1 = prefetch landmark, L0 = no-prefetch landmark.  Empty lists are written as `P=` / `E=`.
+`build` lists what reaches the blob: entry order of the tar (reserved TOC name skipped) and, per
+regular file with data, its chunk offsets in TOC order.  Compressed offsets are not computed by
+the model (the compressor is an oracle there); min-chunk-size and workers are carried for the log.
+-/
 namespace SV.Driver.C14
+open SV.Driver SV.Sort
+
+def parseList (pfx : String) (w : String) : Option (List String) :=
+  if w.startsWith pfx then
+    let body := (w.drop pfx.length).toString
+    if body = "" then some [] else some (body.splitOn ",")
+  else none
+
+def parsePrio (w : String) : Option (List String) := do
+  let xs ← parseList "P=" w
+  xs.mapM unhexStr?
+
+def parseEntry (i : Nat) (s : String) : Option Entry :=
+  match s.splitOn ":" with
+  | [t, n, l, sz] => do
+    let n ← unhexStr? n
+    let l ← unhexStr? l
+    let sz ← parseNat? sz
+    let (isLink, isReg) ← (match t with
+      | "r" => some (false, true)
+      | "l" => some (true, false)
+      | "d" => some (false, false)
+      | "s" => some (false, false)
+      | "o" => some (false, false)
+      | _ => none)
+    some { id := i, name := n, isLink := isLink, linkName := l, isReg := isReg, size := sz }
+  | _ => none
+
+def parseEntries (w : String) : Option (List Entry) :=
+  if w.startsWith "E=" then
+    let body := (w.drop 2).toString
+    if body = "" then some [] else
+    let rec go (i : Nat) : List String → Option (List Entry)
+      | [] => some []
+      | s :: ss => do
+        let e ← parseEntry i s
+        let rest ← go (i + 1) ss
+        some (e :: rest)
+    go 1 (body.splitOn ";")
+  else none
+
+def showEntry (e : Entry) : String :=
+  if e.id = 0 then
+    (if e.name == prefetchLandmark then "L1" else if e.name == noPrefetchLandmark then "L0" else "L?")
+  else toString e.id
+
+def showOrder (es : List Entry) : String := ",".intercalate (es.map showEntry)
+
+def showMissed (ms : List String) : String := ",".intercalate (ms.map hexStr)
+
+def parseAllow : String → Option Bool
+  | "0" => some false
+  | "1" => some true
+  | _ => none
+
+def showToc (cs : Nat) (es : List Entry) : String :=
+  ",".intercalate ((emitted es).flatMap fun e =>
+    if e.isReg then (chunkOffsets cs e.size).map (fun o => s!"{showEntry e}@{o}") else [])
 
 def step (s : Unit) : List String → Unit × String
+  | ["sort", allow, p, e] =>
+    match parseAllow allow, parsePrio p, parseEntries e with
+    | some allow, some prio, some es =>
+      match sortEntries es prio allow with
+      | .ok out missed => (s, s!"ok order={showOrder out} missed={showMissed missed}")
+      | .err => (s, "err")
+      | .diverge => (s, "diverge")
+    | _, _, _ => (s, "bad-op")
+  | ["build", allow, cs, mcs, workers, p, e] =>
+    match parseAllow allow, parseInt? cs, parseInt? mcs, parseInt? workers, parsePrio p, parseEntries e with
+    | some allow, some cs, some _, some _, some prio, some es =>
+      match sortEntries es prio allow with
+      | .ok out missed =>
+        (s, s!"ok tar={showOrder (emitted out)} missed={showMissed missed} toc={showToc (effChunkSize cs) out}")
+      | .err => (s, "err")
+      | .diverge => (s, "diverge")
+    | _, _, _, _, _, _ => (s, "bad-op")
   | _ => (s, "bad-op")
 
 end SV.Driver.C14
